@@ -46,7 +46,10 @@ func (c *checker) bi(k *biCase) {
 		case "Correlation":
 			c.call(r.F, func() { c.value(r.F, r.F, gstat.Correlation(x, y, w), r, ctx) })
 		case "LinearRegression.alpha":
-			c.call("LinearRegression", func() { a, _ := gstat.LinearRegression(x, y, w, false); c.value("LinearRegression", "alpha", a, r, ctx) })
+			c.call("LinearRegression", func() {
+				a, _ := gstat.LinearRegression(x, y, w, false)
+				c.value("LinearRegression", "alpha", a, r, ctx)
+			})
 		case "LinearRegression.beta":
 			c.call("LinearRegression", func() { _, b := gstat.LinearRegression(x, y, w, false); c.value("LinearRegression", "beta", b, r, ctx) })
 		case "LinearRegression.origin":
@@ -178,43 +181,52 @@ func (c *checker) roc(k *rocCase) {
 	if !k.Nilcut {
 		cut = half(k.Cut2)
 	}
-	cutCopy := append([]float64(nil), cut...)
-	ctx := fmt.Sprintf("cutoffs=%v y=%v classes=%v w=%v", cut, y, k.Cl, w)
-	c.call("ROC", func() {
-		tpr, fpr, thr := gstat.ROC(cut, y, k.Cl, w)
-		c.sum.Count("values", 1)
-		want := half(k.Thr2)
-		if len(tpr) != len(want) || len(fpr) != len(want) || len(thr) != len(want) {
-			c.fail("stat:ROC:length", fmt.Sprintf("ROC %s: lengths tpr=%d fpr=%d thresh=%d, specification says %d", ctx, len(tpr), len(fpr), len(thr), len(want)))
-			return
-		}
-		for i := range want {
-			if thr[i] != want[i] {
-				c.fail("stat:ROC:thresh", fmt.Sprintf("ROC %s: thresh=%v, specification says %v", ctx, thr, want))
+	// "If cutoffs is nil or empty, all possible cutoffs are calculated": nil, an empty slice, and an
+	// empty slice with room for the cutoffs (which the function may use as storage) are the same request
+	cutVariants := [][]float64{cut}
+	if k.Nilcut {
+		cutVariants = append(cutVariants, []float64{}, make([]float64, 0, len(y)+1))
+	}
+	for vi, cutv := range cutVariants {
+		cut := cutv
+		cutCopy := append([]float64(nil), cut...)
+		ctx := fmt.Sprintf("cutoffs=%v (variant %d, cap %d) y=%v classes=%v w=%v", cut, vi, cap(cut), y, k.Cl, w)
+		c.call("ROC", func() {
+			tpr, fpr, thr := gstat.ROC(cut, y, k.Cl, w)
+			c.sum.Count("values", 1)
+			want := half(k.Thr2)
+			if len(tpr) != len(want) || len(fpr) != len(want) || len(thr) != len(want) {
+				c.fail("stat:ROC:length", fmt.Sprintf("ROC %s: lengths tpr=%d fpr=%d thresh=%d, specification says %d", ctx, len(tpr), len(fpr), len(thr), len(want)))
 				return
 			}
-		}
-		for i := range cut {
-			if cut[i] != cutCopy[i] {
-				c.fail("stat:ROC:cutoffs-mutated", fmt.Sprintf("ROC mutated the provided cutoffs: %s -> %v", ctx, cut))
-				return
-			}
-		}
-		ok := false
-		for _, a := range k.Alts {
-			good := true
 			for i := range want {
-				if !near(tpr[i], rat(a.Tpr[i]), 1) || !near(fpr[i], rat(a.Fpr[i]), 1) {
-					good = false
-					break
+				if thr[i] != want[i] {
+					c.fail("stat:ROC:thresh", fmt.Sprintf("ROC %s: thresh=%v, specification says %v", ctx, thr, want))
+					return
 				}
 			}
-			ok = ok || good
-		}
-		if !ok {
-			c.fail("stat:ROC:value", fmt.Sprintf("ROC %s: tpr=%v fpr=%v thresh=%v, specification says one of %+v", ctx, tpr, fpr, thr, k.Alts))
-		}
-	})
+			for i := range cut {
+				if cut[i] != cutCopy[i] {
+					c.fail("stat:ROC:cutoffs-mutated", fmt.Sprintf("ROC mutated the provided cutoffs: %s -> %v", ctx, cut))
+					return
+				}
+			}
+			ok := false
+			for _, a := range k.Alts {
+				good := true
+				for i := range want {
+					if !near(tpr[i], rat(a.Tpr[i]), 1) || !near(fpr[i], rat(a.Fpr[i]), 1) {
+						good = false
+						break
+					}
+				}
+				ok = ok || good
+			}
+			if !ok {
+				c.fail("stat:ROC:value", fmt.Sprintf("ROC %s: tpr=%v fpr=%v thresh=%v, specification says one of %+v", ctx, tpr, fpr, thr, k.Alts))
+			}
+		})
+	}
 	if k.Nilcut {
 		c.call("TOC", func() {
 			mn, ntp, mx := gstat.TOC(k.Cl, w)
@@ -440,7 +452,8 @@ func (c *checker) more(fam string, nontrivial *bool, err *error) bool {
 			c.dom(&k)
 		}
 	default:
-		return false
+		// families of DescriptiveExtGen.tla and MultivariateGen.tla
+		return c.multivariate(fam, nontrivial, err)
 	}
 	return true
 }
